@@ -115,10 +115,11 @@ def WorthOneToken (c : VSt) (sh : Dec) : Prop := ∀ v, c.val = some v → v.sha
 
 theorem transfer_no_empty (accts : List Addr) (hn : accts.Nodup) (g : Cfg) (c c2 : VSt) (frm to : Addr) (sh r : Dec)
     (hf : frm ∈ accts) (ht : to ∈ accts) (hne : frm ≠ to) (hwf : WF accts c) (hrate : SaneRate c)
-    (hworth : g.refuseZero = true ∨ WorthOneToken c sh)
+    (hworth : g.skipZeroDelegate = true ∨ WorthOneToken c sh)
     (h : transfer g c frm to sh = .ok (c2, r)) :
-    0 < r.m ∧ (∀ a, NoEmptyAt c a → NoEmptyAt c2 a) ∧ NoEmptyAt c2 to ∧ NoEmptyAt c2 frm := by
-  obtain ⟨x, v, v2, v3, amt, hx, hv, hpos, hle, hred, hg, hrm, hrz, hinv, hadd, hval2, hdf, hdt, hoth, -⟩ :=
+    (∀ a, NoEmptyAt c a → NoEmptyAt c2 a) ∧ NoEmptyAt c2 frm ∧
+    ((c2.del to = c.del to ∧ r.m = 0) ∨ (0 < r.m ∧ NoEmptyAt c2 to)) ∧ (WorthOneToken c sh → 0 < r.m) := by
+  obtain ⟨x, v, v2, amt, hx, hv, hpos, hle, hred, hg, hrm, hdf, hoth, -, -, -, -, -, hcase⟩ :=
     transfer_effect g c c2 frm to sh r hne h
   obtain ⟨w1, w2, w3⟩ := hwf
   obtain ⟨hT, hS⟩ := w3 v hv
@@ -127,78 +128,92 @@ theorem transfer_no_empty (accts : List Addr) (hn : accts.Nodup) (g : Cfg) (c c2
   have hSpos : 0 < v.shares.m := by omega
   have hrt := hrate v hv
   obtain ⟨a1, -, -, -, -, a6⟩ := removeDelShares_spec v v2 sh amt hrm
-  obtain ⟨b1, b2, -, -, -, -, b7⟩ := addTokensFromDel_spec v2 v3 amt r hadd
-  -- at least one token is moved
-  have hamt : 1 ≤ amt := by
-    rcases hworth with hz | hw
-    · have : ¬ amt ≤ 0 := fun e => hrz ⟨hz, e⟩
+  have hamt0 : 0 ≤ amt := by
+    rcases a6 with ⟨-, e1, -⟩ | ⟨-, -, e1, -, -⟩
+    · omega
+    · rw [tfs_trunc v sh hT hSpos (by omega)] at e1
+      have := tokOut_nonneg v.tokens v.shares.m sh.m hT hSpos (by omega); omega
+  -- shares worth one token move at least one token
+  have hworth1 : WorthOneToken c sh → 1 ≤ amt := by
+    intro hw
+    have hw := hw v hv
+    rcases a6 with ⟨e0, e1, -⟩ | ⟨-, -, e1, -, -⟩
+    · have : sh.m = v.shares.m := by omega
+      rw [this] at hw
+      have : 1 ≤ v.tokens := by
+        rcases Int.lt_or_le 0 v.tokens with h' | h'
+        · omega
+        · have : v.tokens = 0 := by omega
+          rw [this] at hw; simp at hw; omega
       omega
-    · have hw := hw v hv
-      rcases a6 with ⟨e0, e1, -⟩ | ⟨-, -, e1, -, -⟩
-      · -- all shares leave: sh = S, so S ≤ S·T gives T ≥ 1
-        have : sh.m = v.shares.m := by omega
-        rw [this] at hw
-        have : 1 ≤ v.tokens := by
-          rcases Int.lt_or_le 0 v.tokens with h' | h'
-          · omega
-          · have : v.tokens = 0 := by omega
-            rw [this] at hw; simp at hw; omega
+    · rw [tfs_trunc v sh hT hSpos (by omega)] at e1
+      have hl := tokOut_lower v.tokens v.shares.m sh.m hT hSpos (by omega)
+      rw [← e1] at hl
+      rcases Int.lt_or_le amt 1 with h' | h'
+      · have h0 : amt + 1 ≤ 1 := by omega
+        have : (amt + 1) * v.shares.m ≤ 1 * v.shares.m := Int.mul_le_mul_of_nonneg_right h0 (by omega)
         omega
-      · rw [tfs_trunc v sh hT hSpos (by omega)] at e1
-        have hl := tokOut_lower v.tokens v.shares.m sh.m hT hSpos (by omega)
-        rw [← e1] at hl
-        rcases Int.lt_or_le amt 1 with h' | h'
-        · have h0 : amt + 1 ≤ 1 := by omega
-          have : (amt + 1) * v.shares.m ≤ 1 * v.shares.m := Int.mul_le_mul_of_nonneg_right h0 (by omega)
-          omega
-        · exact h'
-  have hr : 0 < r.m := by
-    rcases b7 with ⟨-, e⟩ | ⟨hs2, ht2, e⟩
-    · rw [e]; exact Int.mul_pos (by omega) P_pos
-    · rcases a6 with ⟨e0, -, -⟩ | ⟨hne2, -, e1, e2, e3⟩
-      · exact absurd e0 hs2
-      · -- S' = S − sh ≥ 1, T' = T − amt ≥ 1 and S'·T > S·(T'−1) ≥ 2T·(T'−1)
-        rw [tfs_trunc v sh hT hSpos (by omega)] at e1
-        have hl := tokOut_lower v.tokens v.shares.m sh.m hT hSpos (by omega)
-        rw [← e1] at hl
-        have hS2 : 1 ≤ v2.shares.m := by omega
-        have hT2 : 1 ≤ v2.tokens := by omega
-        have hTpos : 0 < v.tokens := by omega
-        have k1 : v.shares.m * (v2.tokens - 1) < v2.shares.m * v.tokens := by
-          rw [a1, e2]; grind
-        have k2 : 2 * v.tokens * (v2.tokens - 1) ≤ v.shares.m * (v2.tokens - 1) :=
-          Int.mul_le_mul_of_nonneg_right hrt (by omega)
-        have k3 : v.tokens * (2 * (v2.tokens - 1)) < v.tokens * v2.shares.m := by grind
-        have k4 : 2 * (v2.tokens - 1) < v2.shares.m := Int.lt_of_mul_lt_mul_left k3 (by omega)
-        have k5 : v2.tokens ≤ v2.shares.m * amt := by
-          have : v2.shares.m * 1 ≤ v2.shares.m * amt := Int.mul_le_mul_of_nonneg_left hamt (by omega)
-          omega
-        rw [e, tquo_nonneg_eq _ _ (Int.mul_nonneg (by omega) (by omega)) (by omega)]
-        have := Int.ediv_le_ediv (by omega : (0:Int) < v2.tokens) k5
-        rw [Int.ediv_self (by omega)] at this
-        omega
+      · exact h'
+  have hfrmNE : NoEmptyAt c2 frm := by
+    unfold NoEmptyAt; rw [hdf]
+    split
+    · simp
+    · rename_i h0; intro e; simp only [Option.some.injEq] at e; have := congrArg Dec.m e; simp at this; omega
   have hdto : 0 ≤ dm c to := by
     unfold dm; cases hc : c.del to with
     | none => simp
     | some z => exact w2 to z hc
-  refine ⟨hr, ?_, ?_, ?_⟩
-  · intro a ha
+  rcases hcase with ⟨hs, ha0, hr0, hto, -⟩ | ⟨hns, v3, hinv, hadd, hval2, hdt⟩
+  · -- nothing unbonded, nothing delegated: the recipient's record is untouched
+    refine ⟨?_, hfrmNE, Or.inl ⟨hto, by rw [hr0]; rfl⟩, ?_⟩
+    · intro a ha
+      by_cases h1 : a = frm
+      · subst h1; exact hfrmNE
+      · by_cases h2 : a = to
+        · subst h2; unfold NoEmptyAt at *; rw [hto]; exact ha
+        · unfold NoEmptyAt at *; rw [hoth a h1 h2]; exact ha
+    · intro hw; have := hworth1 hw; omega
+  · obtain ⟨b1, b2, -, -, -, -, b7⟩ := addTokensFromDel_spec v2 v3 amt r hadd
+    have hamt : 1 ≤ amt := by
+      rcases hworth with hz | hw
+      · have : ¬ amt = 0 := fun e => hns ⟨hz, e⟩
+        omega
+      · exact hworth1 hw
+    have hr : 0 < r.m := by
+      rcases b7 with ⟨-, e⟩ | ⟨hs2, ht2, e⟩
+      · rw [e]; exact Int.mul_pos (by omega) P_pos
+      · rcases a6 with ⟨e0, -, -⟩ | ⟨hne2, -, e1, e2, e3⟩
+        · exact absurd e0 hs2
+        · -- S' = S − sh ≥ 1, T' = T − amt ≥ 1 and S'·T > S·(T'−1) ≥ 2T·(T'−1)
+          rw [tfs_trunc v sh hT hSpos (by omega)] at e1
+          have hl := tokOut_lower v.tokens v.shares.m sh.m hT hSpos (by omega)
+          rw [← e1] at hl
+          have hS2 : 1 ≤ v2.shares.m := by omega
+          have hT2 : 1 ≤ v2.tokens := by omega
+          have hTpos : 0 < v.tokens := by omega
+          have k1 : v.shares.m * (v2.tokens - 1) < v2.shares.m * v.tokens := by
+            rw [a1, e2]; grind
+          have k2 : 2 * v.tokens * (v2.tokens - 1) ≤ v.shares.m * (v2.tokens - 1) :=
+            Int.mul_le_mul_of_nonneg_right hrt (by omega)
+          have k3 : v.tokens * (2 * (v2.tokens - 1)) < v.tokens * v2.shares.m := by grind
+          have k4 : 2 * (v2.tokens - 1) < v2.shares.m := Int.lt_of_mul_lt_mul_left k3 (by omega)
+          have k5 : v2.tokens ≤ v2.shares.m * amt := by
+            have : v2.shares.m * 1 ≤ v2.shares.m * amt := Int.mul_le_mul_of_nonneg_left hamt (by omega)
+            omega
+          rw [e, tquo_nonneg_eq _ _ (Int.mul_nonneg (by omega) (by omega)) (by omega)]
+          have := Int.ediv_le_ediv (by omega : (0:Int) < v2.tokens) k5
+          rw [Int.ediv_self (by omega)] at this
+          omega
+    have htoNE : NoEmptyAt c2 to := by
+      unfold NoEmptyAt; rw [hdt]
+      intro e; simp only [Option.some.injEq] at e; have := congrArg Dec.m e; simp at this; omega
+    refine ⟨?_, hfrmNE, Or.inr ⟨hr, htoNE⟩, fun _ => hr⟩
+    intro a ha
     by_cases h1 : a = frm
-    · subst h1; unfold NoEmptyAt; rw [hdf]
-      split
-      · simp
-      · rename_i h0; intro e; simp only [Option.some.injEq] at e; have := congrArg Dec.m e; simp at this; omega
+    · subst h1; exact hfrmNE
     · by_cases h2 : a = to
-      · subst h2; unfold NoEmptyAt; rw [hdt]
-        intro e; simp only [Option.some.injEq] at e; have := congrArg Dec.m e; simp at this; omega
+      · subst h2; exact htoNE
       · unfold NoEmptyAt at *; rw [hoth a h1 h2]; exact ha
-  · unfold NoEmptyAt; rw [hdt]
-    intro e; simp only [Option.some.injEq] at e; have := congrArg Dec.m e; simp at this; omega
-  · unfold NoEmptyAt; rw [hdf]
-    split
-    · simp
-    · rename_i h0; intro e; simp only [Option.some.injEq] at e; have := congrArg Dec.m e; simp at this; omega
-
 
 /-- the arithmetic facts of a successful transfer, in the notation of `value_core`
     (T, S = validator before; sh = shares sent; r = shares received) -/
